@@ -18,11 +18,21 @@ def find_emitter(model):
     for m in model.modules.values():
         for c in m.classes.values():
             names = set(n.name for n in c.body if isinstance(n, ast.FunctionDef))
+            # a method may also be bound by assignment in the class body (once = partialmethod(on, once=True))
+            names |= set(t.id for n in c.body if isinstance(n, ast.Assign) for t in n.targets if isinstance(t, ast.Name))
             if all(a in names for a in API):
                 cands.append((m, c))
     if not cands:
         raise AnalysisError('no class defining on/once/emit/off found (anchor vanished)')
     return cands
+
+
+class _Methods(dict):
+    """Methods of the emitter class written as plain ``def``s; asking for one that is bound some other way (an assignment in the class
+    body) is a vanished anchor for the syntactic rule that asks, not a crash."""
+
+    def __missing__(self, name):
+        raise AnalysisError('%s is not a plain method of the emitter class (anchor vanished)' % name)
 
 
 def storage_attr(m, c, methods):
@@ -75,15 +85,22 @@ def run(model, res, tier):
     res.rule('R8', 'whatever an emitter method counts up (or sets) before it calls listeners and counts down (or resets) afterwards is restored '
              'on every exit - a listener that raises must not leave the emitter in the "busy" state')
     res.rule('R7', 'no emitter method resizes a list inside a loop that iterates over that same list (entries would be skipped)')
+    res.rule('R9', 'scripted histories: short on/once/off/emit histories with opaque callbacks, run on the abstract emitter (its real constructor '
+             'and methods), produce exactly the calls the statement prescribes - including listeners that unsubscribe or subscribe during an emit, '
+             'two listeners sharing one callback, and unsubscribing a name nobody listens to')
     res.assumptions += ['callbacks are ordinary callables compared with ==', 'the per-name container is a list']
     res.trusted += ['CPython ast', 'list/slice copy semantics']
     cands = find_emitter(model)
     res.floor('emitter classes', len(cands), 1)
     for m, c in cands:
-        methods = dict((n.name, n) for n in c.body if isinstance(n, ast.FunctionDef))
-        store = storage_attr(m, c, methods)
-        res.analysed['storage attribute'] = '%s.%s' % (c.name, store)
+        methods = _Methods((n.name, n) for n in c.body if isinstance(n, ast.FunctionDef))
         from .. import abshelp as H
+        # the histories need no syntactic anchor: they run whatever the class defines
+        H.safely(res, 'R9', 'histories', _r9_histories, model, res, m, c)
+        store = H.safely(res, 'R5', 'storage attribute', storage_attr, m, c, methods)
+        if store is None:
+            continue
+        res.analysed['storage attribute'] = '%s.%s' % (c.name, store)
         H.safely(res, 'R1', 'emit', _r1, model, res, m, c, methods, store)
         H.safely(res, 'R2', 'on', _r2, model, res, m, c, methods, store)
         H.safely(res, 'R3', 'once', _r3, model, res, m, c, methods, store)
@@ -102,10 +119,124 @@ def run(model, res, tier):
             res.ob('R6', '%s:%s' % (sm.name, sc.name), 'no override of on/once/emit/off', True)
 
 
+# ---------------------------------------------------------------------------------------------------
+# R9: scripted histories on the abstract emitter
+
+# op: ('on'|'once', name, callback, ctx-or-None) | ('off', name, callback-or-None) | ('emit', name, arg)
+# callbacks: 'F' 'G' 'H' plain; 'OFFSELF:<name>' unsubscribes the whole name when called; 'SUB:<name>:<cb>' subscribes <cb> when called;
+# 'OFFME:<name>' unsubscribes itself (name, callback) when called
+HISTORIES = (
+    ('two listeners, context bound', [('on', 'n', 'F', {'k': 1}), ('on', 'n', 'G', None), ('emit', 'n', 'a')],
+     [('F', 'a', {'k': 1}), ('G', 'a', {})]),
+    ('once fires on the first emit only', [('once', 'n', 'F', None), ('emit', 'n', 'a'), ('emit', 'n', 'b')], [('F', 'a', {})]),
+    ('a once-listener sharing its callback with a permanent one',
+     [('on', 'n', 'F', {'t': 'always'}), ('on', 'n', 'G', None), ('once', 'n', 'F', {'t': 'once'}), ('emit', 'n', 'a'), ('emit', 'n', 'b'), ('emit', 'n', 'c')],
+     [('F', 'a', {'t': 'always'}), ('G', 'a', {}), ('F', 'a', {'t': 'once'}), ('F', 'b', {'t': 'always'}), ('G', 'b', {}),
+      ('F', 'c', {'t': 'always'}), ('G', 'c', {})]),
+    ('off(name, callback) removes exactly that callback', [('on', 'n', 'F', None), ('on', 'n', 'G', None), ('on', 'n', 'F', None), ('off', 'n', 'F'), ('emit', 'n', 'a')],
+     [('G', 'a', {})]),
+    ('off(name, callback) removes a once-listener too', [('once', 'n', 'F', None), ('on', 'n', 'G', None), ('off', 'n', 'F'), ('emit', 'n', 'a')], [('G', 'a', {})]),
+    ('off(name) removes every listener of the name only', [('on', 'n', 'F', None), ('on', 'm', 'G', None), ('off', 'n', None), ('emit', 'n', 'a'), ('emit', 'm', 'b')],
+     [('G', 'b', {})]),
+    ('off of a name nobody listens to', [('off', 'n', None), ('off', 'n', 'F'), ('on', 'n', 'F', None), ('emit', 'n', 'a')], [('F', 'a', {})]),
+    ('events of one name do not reach another', [('on', 'n', 'F', None), ('on', 'm', 'G', None), ('emit', 'n', 'a')], [('F', 'a', {})]),
+    ('two listeners unsubscribe the name during one emit',
+     [('on', 'n', 'OFFSELF:n', None), ('on', 'n', 'OFFSELF:n', None), ('on', 'n', 'H', None), ('emit', 'n', 'a'), ('emit', 'n', 'b')],
+     [('OFFSELF:n', 'a', {}), ('OFFSELF:n', 'a', {}), ('H', 'a', {})]),
+    ('a listener that removes itself does not make the next one be skipped',
+     [('on', 'n', 'OFFME:n', None), ('on', 'n', 'G', None), ('emit', 'n', 'a'), ('emit', 'n', 'b')],
+     [('OFFME:n', 'a', {}), ('G', 'a', {}), ('G', 'b', {})]),
+    ('a subscription made during an emit counts from the next emit',
+     [('on', 'n', 'SUB:n:G', None), ('emit', 'n', 'a'), ('off', 'n', 'SUB:n:G'), ('emit', 'n', 'b')],
+     [('SUB:n:G', 'a', {}), ('G', 'b', {})]),
+    ('once-listener removing the name while it runs', [('once', 'n', 'OFFSELF:n', None), ('on', 'n', 'G', None), ('emit', 'n', 'a'), ('emit', 'n', 'b')],
+     [('OFFSELF:n', 'a', {}), ('G', 'a', {})]),
+)
+
+
+def _r9_histories(model, res, m, c):
+    from ..absint import Interp, Const, Builtin, ClassV, DictV, Unmodelled, Obj
+    site = '%s.%s' % (m.name, c.name)
+    n = 0
+    for label, ops, want in HISTORIES:
+        def script(interp, st, ops=ops):
+            em = interp.instantiate(ClassV(m, c), [])
+            cbs = {}
+
+            def cb(name):
+                if name in cbs:
+                    return cbs[name]
+                key = 'hx:h:%s' % name
+
+                def fn(interp2, args, kwargs, name=name):
+                    interp2.state.events.append((name, list(args), dict(kwargs)))
+                    parts = name.split(':')
+                    if parts[0] == 'OFFSELF':
+                        interp2.call(interp2.get_method(em, 'off'), [Const(parts[1])])
+                    elif parts[0] == 'OFFME':
+                        interp2.call(interp2.get_method(em, 'off'), [Const(parts[1]), cbs[name]])
+                    elif parts[0] == 'SUB':
+                        interp2.call(interp2.get_method(em, 'on'), [Const(parts[1]), cb(parts[2])])
+                    return Const(None)
+                interp.extern[key] = fn
+                cbs[name] = Builtin(key)
+                return cbs[name]
+            for op in ops:
+                meth = interp.get_method(em, op[0]) or interp.getattr(em, op[0])
+                if op[0] in ('on', 'once'):
+                    args = [Const(op[1]), cb(op[2])]
+                    if op[3] is not None:
+                        args.append(DictV([[Const(k_), Const(v_)] for k_, v_ in sorted(op[3].items())]))
+                    interp.call(meth, args)
+                elif op[0] == 'off':
+                    interp.call(meth, [Const(op[1])] + ([cb(op[2])] if op[2] is not None else []))
+                else:
+                    interp.call(meth, [Const(op[1]), Const(op[2])])
+            return Const(None)
+        try:
+            outs = Interp(model).run(script)
+        except Unmodelled as e:
+            res.ob('R9', site, label, True, 'undecided: %s' % e)
+            continue
+        if len(outs) != 1 or outs[0].imprecise:
+            res.ob('R9', site, label, True, 'undecided: %d outcomes%s' % (len(outs), ' (imprecise)' if outs and outs[0].imprecise else ''))
+            continue
+        o = outs[0]
+        got = []
+        shape_ok = True
+        for ev in o.events:
+            if not (isinstance(ev, tuple) and len(ev) == 3 and isinstance(ev[0], str)):
+                continue
+            name, args, kwargs = ev
+            if len(args) != 1 or not isinstance(args[0], Const) or not all(isinstance(v, Const) for v in kwargs.values()):
+                shape_ok = False
+                break
+            got.append((name, args[0].value, dict((k_, v.value) for k_, v in kwargs.items())))
+        if not shape_ok:
+            res.ob('R9', site, label, True, 'undecided: calls with non-constant arguments')
+            continue
+        n += 1
+        ok = o.kind == 'return' and got == list(want)
+        res.ob('R9', site, {'history': label, 'calls': ['%s(%s%s)' % (a, b, ', **%r' % c_ if c_ else '') for a, b, c_ in got]}, ok)
+        if not ok:
+            how = 'ends in %s %r' % (o.kind, o.value) if o.kind != 'return' else 'calls %s' % (
+                ', '.join('%s(%r%s)' % (a, b, ', **%r' % c_ if c_ else '') for a, b, c_ in got) or 'nothing')
+            res.violation('R9', '%s:history:%s' % (site, _slug(label)), m.where(c),
+                          'history "%s" [%s] %s; the statement prescribes %s' % (
+                              label, '; '.join('%s(%s)' % (op[0], ', '.join(repr(x) for x in op[1:] if x is not None)) for op in ops), how,
+                              ', '.join('%s(%r%s)' % (a, b, ', **%r' % c_ if c_ else '') for a, b, c_ in want) or 'no call'),
+                          case=label, func=c.name)
+    res.soft_floor('emitter histories decided', n, 9)
+
+
+def _slug(s_):
+    return ''.join(ch if ch.isalnum() else '-' for ch in s_)[:50]
+
+
 def emitter_rules(model, res):
     """R1-R5 on every emitter class (used by the properties that depend on events being delivered as the emitter promises)."""
     for m, c in find_emitter(model):
-        methods = dict((n.name, n) for n in c.body if isinstance(n, ast.FunctionDef))
+        methods = _Methods((n.name, n) for n in c.body if isinstance(n, ast.FunctionDef))
         store = storage_attr(m, c, methods)
         _r1(model, res, m, c, methods, store)
         _r2(model, res, m, c, methods, store)
@@ -130,6 +261,25 @@ def _listener_fields(model, m):
                 return name, list(fields)
             except Exception:
                 pass
+    # a small record class: __init__(self, a, b) storing self.a = a, self.b = b - or annotated fields (NamedTuple / dataclass)
+    cands = []
+    for cname, cnode in m.classes.items():
+        init = [n for n in cnode.body if isinstance(n, ast.FunctionDef) and n.name == '__init__']
+        if init:
+            ps = sa.params(init[0])[1:]
+            stored = set(t.attr for st in ast.walk(init[0]) if isinstance(st, ast.Assign) and isinstance(st.value, ast.Name) and st.value.id in ps
+                         for t in st.targets if isinstance(t, ast.Attribute) and isinstance(t.value, ast.Name) and t.attr == st.value.id)
+            if ps and set(ps) == stored and not sa.vararg(init[0]):
+                cands.append((cname, list(ps)))
+        else:
+            ann = [n.target.id for n in cnode.body if isinstance(n, ast.AnnAssign) and isinstance(n.target, ast.Name)]
+            ann += [n.targets[0].id for n in cnode.body if isinstance(n, ast.Assign) and getattr(n, '_annotation', None) is not None
+                    and isinstance(n.targets[0], ast.Name)]
+            if ann:
+                cands.append((cname, ann))
+    for cname, fields in cands:
+        if 'fn' in fields and 'ctx' in fields:
+            return cname, fields
     return None, None
 
 
@@ -474,6 +624,13 @@ def _r3(model, res, m, c, methods, store):
     site = '%s:%s.once' % (m.name, c.name)
     key = site
     wrappers = [n for n in sa.nested_defs(once) if isinstance(n, ast.FunctionDef)]
+    if not wrappers:
+        # once() is not written as a nested wrapper function (a callable object, a flag on the record ...): this syntactic rule has
+        # nothing to read; what once() must do is decided on the histories of R9
+        res.analysed['wrapper functions in once'] = 0
+        res.ob('R3', site, 'once wrapper', True, 'undecided: once() builds no nested wrapper function (decided by the R9 histories)')
+        res.notes.append('C20.R3: once() builds no nested wrapper function; see R9')
+        return
     res.floor('wrapper functions in once', len(wrappers), 1)
     w = wrappers[0]
     wname = w.name
@@ -608,6 +765,7 @@ def _r4(model, res, m, c, methods, store):
         res.notes.append('C20.R4: filter in off() not in a recognised shape; truth-table obligation undecided')
     else:
         ev, it, cond, node, shape = filt
+        wrapper_design = 'once' in methods and any(isinstance(x, (ast.FunctionDef, ast.Lambda)) and x is not methods['once'] for x in ast.walk(methods['once']))
         # iteration source is the per-name list in order
         base = sa.resolve_local(off, it)
         ok_src = is_storage_for_name(base, s, store, name_p)
@@ -660,6 +818,9 @@ def _r4(model, res, m, c, methods, store):
                     return a2
                 unrec.append(src(n))
                 return None
+            if a2 and not wrapper_design:
+                # once() does not wrap the callback in this emitter (a flag on the record, say): no listener carries a mark, these worlds do not exist
+                continue
             got = _bool_eval(cond, val)
             want = (not a1) and not (a2 and a3)
             case = {'fn==cb': a1, 'has-mark': a2, 'mark==cb': a3}
